@@ -146,25 +146,44 @@ def rule_table(facts):
             r.bad("table|%s" % role, bad, pat.where(p, gb))
         else:
             r.ok("evaluation", {role: "for all 128 control bytes 0x80..0xFF: %s" % {"reset_dict": ">= 0xE0", "reset_state": ">= 0xA0", "reset_props": ">= 0xC0"}[role]})
-    # decompress: status 1 -> reset true, 2 -> false
+    # uncompressed chunks: control byte 1 -> parse_uncompressed with dictionary reset, 2 -> without (gated evaluation of
+    # which call fires and of its reset argument, for the two control bytes)
     d = pat.chunk_loop_body(facts)
     if d is not None:
-        tmd = Terms(d)
-        gs, _ = pat.guards(d)
-        seen = {}
+        from engine.flow import PosTerms
+        ptd = PosTerms(d)
         cd = cfg(d)
-        for (bb, t, z, nz) in gs:
-            s = pat.cmp_sides(t)
-            if s and s[0] == "Eq" and pat.has_call(s[1], "read_u8") and s[2][0] == "const" and s[2][1] in (1, 2):
-                for blk in d.calls():
-                    if (flow.callee(blk.term) or "").endswith("parse_uncompressed") and (cd.dominates(nz, blk.idx) or nz == blk.idx):
-                        if not any(cd.dominates(nz2, blk.idx) for (_, t2, _, nz2) in gs if nz2 != nz and
-                                   pat.cmp_sides(t2) and pat.cmp_sides(t2)[0] == "Eq" and cd.dominates(nz, nz2)):
-                            seen[s[2][1]] = blk.term.args[2].const_int()
-        if seen == {1: 1, 2: 0}:
-            r.ok("table", {"status 1": "uncompressed, dictionary reset", "status 2": "uncompressed, no reset"})
+        term_at = lambda b_: ptd.at(b_.idx, None).of_operand(b_.term.discr)
+        calls = [blk for blk in d.calls() if (flow.callee(blk.term) or "").endswith("parse_uncompressed")]
+        seen = {}
+        try:
+            for st in (1, 2):
+                leaf = lambda q, st=st: st if (q[0] in ("ok", "try") and pat.has_call(q, "read_u8")) else (_ for _ in ()).throw(pat.NotEvaluable(q))
+                fired = []
+                for blk in calls:
+                    okk = True
+                    for (gb, t, cond) in pat.branch_conditions(d, cd, blk.idx, term_at):
+                        try:
+                            if not pat._cond_holds(t, cond, leaf):
+                                okk = False
+                                break
+                        except pat.NotEvaluable:
+                            continue
+                    if okk:
+                        a2 = blk.term.args[2]
+                        if a2.const_int() is not None:
+                            fired.append(a2.const_int())
+                        elif a2.place is not None and not a2.place.proj:
+                            fired.append(int(bool(pat.eval_gated(d, ptd, a2.place.local, blk.idx, leaf))))
+                        else:
+                            fired.append(int(bool(pat.eval_term(ptd.at(blk.idx, None).of_operand(a2), leaf))))
+                seen[st] = fired
+        except (pat.NotEvaluable, pat.Overflow) as ex:
+            seen = None
+        if seen == {1: [1], 2: [0]}:
+            r.ok("evaluation", {"status 1": "uncompressed, dictionary reset", "status 2": "uncompressed, no reset"})
         else:
-            r.bad("table|uncompressed", "status 1/2 do not map to parse_uncompressed(reset = true/false): %s" % seen, pat.where(d))
+            r.bad("table|uncompressed", "control bytes 1 / 2 do not lead to parse_uncompressed(reset = true / false): %s" % (seen,), pat.where(d))
     return r
 
 
